@@ -471,6 +471,11 @@ class CorrData(AsciiSerializable, SampledData, Broadcastable):
 
             path_prefix = Path(path_prefix)
 
+            # remove results of previous runs first, otherwise an interrupted
+            # write can leave a mix of new data and old samples behind
+            for suffix in (".dat", ".smp", ".cov"):
+                path_prefix.with_suffix(suffix).unlink(missing_ok=True)
+
             write_data(
                 path_prefix.with_suffix(".dat"),
                 self._description_data,
